@@ -339,14 +339,15 @@ Definition step (cap mx : nat) (s : st) (o : op) : st * out :=
       match t_lookup id (tb s) with
       | None => (s, RErr E_NOSESSION)
       | Some x =>
-          if (pending && s_reserved x) || s_expired x then (s, RErr E_NOSESSION)
-          else match t_get id now (tb s) with
+          if pending && s_reserved x then (s, RErr E_NOSESSION)   (* is_for_rx never matches a reserved slot *)
+          else match t_get id now (tb s) with                    (* get_for_rx / get: last_use refreshed first *)
                | None => (s, RErr E_NOSESSION)
                | Some t1 =>
-                   match x_add mx (s_exch x) (if pending then XPending else XOwned) with
-                   | Some (x', i) => (mkSt (t_upd id (set_exch x') t1) (hs s), RIdx i)
-                   | None => (mkSt t1 (hs s), RErr E_NOSPACE_EXCH)
-                   end
+                   if s_expired x then (mkSt t1 (hs s), RErr E_NOSESSION)
+                   else match x_add mx (s_exch x) (if pending then XPending else XOwned) with
+                        | Some (x', i) => (mkSt (t_upd id (set_exch x') t1) (hs s), RIdx i)
+                        | None => (mkSt t1 (hs s), RErr E_NOSPACE_EXCH)
+                        end
                end
       end
   | OExAccept id xi now =>
